@@ -165,7 +165,7 @@ class Run:
         return self.timed_out is False and (self.rc not in (0, 1) or "panicked at" in self.err)
 
 
-def run(argv, cwd=None, hash_seed=None, timeout=60, env_extra=None, stdin=None, cpu_limit=None):
+def run(argv, cwd=None, hash_seed=None, timeout=60, env_extra=None, stdin=None, cpu_limit=None, fsize_limit=None):
     """cpu_limit: RLIMIT_CPU in seconds for the child. Unlike the wall-clock timeout (a watchdog whose firing is inconclusive), CPU
     time does not depend on how loaded the machine is: a child killed by SIGXCPU really computed for that long."""
     env = dict(os.environ)
@@ -184,6 +184,15 @@ def run(argv, cwd=None, hash_seed=None, timeout=60, env_extra=None, stdin=None, 
 
             def pre(_l=int(cpu_limit)):
                 resource.setrlimit(resource.RLIMIT_CPU, (_l, _l + 5))
+        elif fsize_limit:
+            # RLIMIT_FSIZE in bytes with SIGXFSZ ignored (an ignored disposition survives exec): a write that crosses the limit is cut
+            # short at it, the next one fails with EFBIG
+            import resource
+            import signal
+
+            def pre(_l=int(fsize_limit)):
+                signal.signal(signal.SIGXFSZ, signal.SIG_IGN)
+                resource.setrlimit(resource.RLIMIT_FSIZE, (_l, _l))
         p = subprocess.run(argv, cwd=cwd, env=env, capture_output=True, timeout=timeout, stdin=subprocess.DEVNULL, preexec_fn=pre)
         return Run(p.returncode, p.stdout.decode("utf-8", "replace"), p.stderr.decode("utf-8", "replace"))
     except subprocess.TimeoutExpired as e:
